@@ -11,18 +11,23 @@ CONSTANTS MaxPre,    \* longest prefix enumerated
           TailLen,   \* bytes after the 4 signature bytes of the planted header (>= Window-4)
           OutFile    \* emission file ("" = no emission)
 
-VARIABLES pre, hdr, phase, pos, found, order
+VARIABLES pre, hdr, ifd, phase, pos, found, order
 
-vars == <<pre, hdr, phase, pos, found, order>>
+vars == <<pre, hdr, ifd, phase, pos, found, order>>
 
 Fill(n) == [i \in 1..n |-> "X"]
 
-Stream == pre \o (CASE hdr = "LE" -> LE [] hdr = "BE" -> BE [] OTHER -> <<>>) \o Fill(TailLen)
+\* the four bytes stored after the signature (the first-directory offset) are data, not part of the signature:
+\* any value, 0, 8 in either byte order, or bytes that themselves look like the start of a signature
+IfdTails == {<<"X", "X", "X", "X">>, <<"Z", "Z", "Z", "Z">>, <<"X", "Z", "Z", "Z">>, <<"Z", "Z", "Z", "X">>, <<"I", "I", "S", "X">>}
+
+Stream == pre \o (CASE hdr = "LE" -> LE \o ifd [] hdr = "BE" -> BE \o ifd [] OTHER -> <<>>) \o Fill(TailLen)
 
 Prefixes == UNION {[1..n -> Sym] : n \in 0..MaxPre}
 
 Init == /\ pre \in Prefixes
         /\ hdr \in {"LE", "BE", "NONE"}
+        /\ ifd \in IfdTails /\ (hdr = "NONE" => ifd = <<"X", "X", "X", "X">>)
         /\ phase = "scan" /\ pos = 1 /\ found = 0 /\ order = "NONE"
 
 \* one loop iteration of ScanTiffHeader
@@ -33,7 +38,7 @@ Step == /\ phase = "scan"
                THEN /\ phase' = "done" /\ found' = pos /\ order' = OrderAt(Stream, pos)
                     /\ UNCHANGED pos                                              \* header found; nothing consumed
                ELSE /\ pos' = pos + Adv(Stream, pos) /\ UNCHANGED <<phase, found, order>>
-        /\ UNCHANGED <<pre, hdr>>
+        /\ UNCHANGED <<pre, hdr, ifd>>
 
 Done == phase \in {"done", "noexif"} /\ UNCHANGED vars
 
@@ -55,5 +60,5 @@ Progress    == [][phase = "scan" /\ phase' = "scan" => pos' > pos]_vars
 Terminates  == <>(phase \in {"done", "noexif"})
 
 Emit == (phase \in {"done", "noexif"} /\ OutFile # "") =>
-          CSVWrite("%1$s", <<ToJson([pre |-> pre, hdr |-> hdr, off |-> found - 1, bo |-> order])>>, OutFile)
+          CSVWrite("%1$s", <<ToJson([pre |-> pre, hdr |-> hdr, ifd |-> ifd, off |-> found - 1, bo |-> order])>>, OutFile)
 =============================================================================
